@@ -18,7 +18,7 @@ import SpectraVerif.Model.TridiagQR
 import SpectraVerif.Model.DoubleShiftQR
 
 /-- `Scalar = float`: the same generic definitions at `Float32` (C `float` operations; `powf`, `sqrtf`) -/
-instance : Sc Float32 where
+instance instScFloat32C08 : Sc Float32 where
   abs := Float32.abs
   sqrt := Float32.sqrt
   pow := Float32.pow
